@@ -33,13 +33,24 @@ def marker_for(m, info):
             return "Tue, 29 Apr 2014 18:30:38 GMT", "2014-04-29"
         return "2014-04-29T18:30:38Z", "2014-04-29"
     if tt == "list":
-        return None, None
+        if info["loc"] != "header":
+            return None, None
+        el = m.shapes.get(tgt.get("member", {}).get("target"), {})
+        if el.get("type") == "enum":
+            vals = [v.get("traits", {}).get("smithy.api#enumValue", k) for k, v in el.get("members", {}).items()]
+            if len(vals) < 2:
+                return None, None
+            a, b = vals[0], vals[1]
+        else:
+            a, b = "aAzz", "bBzz"
+        # one comma-separated line (AWS CLI / most SDKs); both elements must arrive as two elements
+        return "%s, %s" % (a, b), (a, b)
     if "copy-source" == (info.get("wire") or "").lower().replace("x-amz-", ""):
         return "srcbkt/srckey", "srcbkt"
     if (info.get("wire") or "").lower() == "range" or (info.get("wire") or "").lower().endswith("copy-source-range"):
         return "bytes=3-7", "3"
     if (info.get("wire") or "").lower() == "content-type":
-        return "text/zzmarker", "zzmarker"
+        return "text/zzmarker; charset=utf-8", "text/zzmarker; charset=utf-8"
     if (info.get("wire") or "").lower() == "content-md5":
         return "zzmarkerzzmarkerzzmark==", "zzmarker"
     return "zzmarker", "zzmarker"
@@ -74,12 +85,19 @@ def scenario(m, op, name, info):
 
 def field_shows(debug, field, probe):
     # Debug of the generated inputs prints `field: Some(..probe..)` or `field: ..probe..`
+    if isinstance(probe, tuple):
+        m = re.search(r"\b%s: (?:Some\()?\[([^\]]*)\]" % re.escape(field), debug)
+        if not m:
+            return False
+        elems = re.findall(r'"([^"]*)"', m.group(1))
+        return elems == list(probe)
     m = re.search(r"\b%s: ([^,}]*(?:\([^)]*\))?[^,}]*)" % re.escape(field), debug)
     return bool(m and probe in m.group(1))
 
 
-def run_witnesses(rep, ops):
-    """all header/query members of all operations without a required XML payload"""
+def run_witnesses(rep, ops, proxy=False):
+    """all header/query members of all operations without a required XML payload; proxy=True sends them through
+    client -> adapter -> s3s_aws::Proxy (aws-sdk-s3 client) -> second adapter -> recording backend"""
     m = model()
     scs, meta = [], []
     for op in ops:
@@ -96,6 +114,8 @@ def run_witnesses(rep, ops):
             sc, probe = scenario(m, op, name, i)
             if sc is None:
                 continue
+            if proxy:
+                sc = dict(sc, config=dict(sc["config"], proxy=True))
             scs.append(sc)
             meta.append((op, name, i, probe))
     outs = replay.run_scenarios(scs)
